@@ -10,7 +10,7 @@ JOBS = 4
 
 # ------------------------------------------------------------------ generators
 
-def gen_module(rng, nnames, valid_bias=0.8):
+def gen_module(rng, nnames, valid_bias=0.9):
     """declaration list of one module"""
     ds = []
     if rng.random() < valid_bias:
@@ -28,7 +28,7 @@ def gen_module(rng, nnames, valid_bias=0.8):
                 ds += rng.choice([['F%d'], ['f%d', 'F%d'], ['D%d'], ['F%d', 'f%d']])
             elif role < 0.86:
                 ds += rng.choice([['e%d', 'P%d'], ['P%d'], ['f%d', 'P%d']])
-            elif role < 0.92:
+            elif role < 0.97:
                 ds += rng.choice([['e%d'], ['f%d'], ['f%d', 'e%d'], ['e%d', 'f%d']])
             else:
                 ds += rng.choice([['i%d', 'F%d'], ['F%d', 'F%d'], ['P%d', 'e%d'], ['e%d', 'i%d'], ['F%d', 'i%d'],
@@ -45,18 +45,18 @@ def gen_module(rng, nnames, valid_bias=0.8):
 def gen_history(rng, nops, gen_share):
     nnames = rng.choice([1, 2, 2, 3, 3, 4])
     ops = []
-    if rng.random() < 0.6:
+    if rng.random() < 0.7:
         ops.append('R 1')
     for _ in range(nops):
         k = rng.random()
         if k < 0.50:
             ops.append(gen_module(rng, nnames))
-        elif k < 0.62:
+        elif k < 0.64:
             ops.append('X %d %d' % (rng.randrange(nnames), rng.randrange(8)))
         elif k < 0.70:
-            ops.append('R %d' % rng.choice([0, 1, 1]))
+            ops.append('R %d' % rng.choice([0, 1, 1, 1]))
         else:
-            mask = rng.choice([0, (1 << nnames) - 1, (1 << nnames) - 1, rng.randrange(1 << nnames)])
+            mask = rng.choice([0, (1 << nnames) - 1, (1 << nnames) - 1, (1 << nnames) - 1, rng.randrange(1 << nnames)])
             iface = rng.choice('gl') if rng.random() < gen_share else 'i'
             ops.append('K %d %s' % (mask, iface))
     if not ops[-1].startswith('K'):
@@ -220,7 +220,12 @@ def run(chk):
     ex = exhaustive(4 if quick else 6)
     hs += ex
     rng = chk.rng('hist')
-    nrand = 3000 if quick else 60000
+    if quick:  # a seeded sample of the length-5/6 part of the exhaustive space
+        for _ in range(12000):
+            t = [rng.choice(EXH_ALPHABET) for _ in range(rng.choice([5, 6]))]
+            t[-1] = rng.choice(['K 0 i', 'K 3 i', 'K 3 g', 'L i0 i1', 'L e0 F0'])
+            ex.append(' ; '.join(t))
+    nrand = 12000 if quick else 150000
     for i in range(nrand):
         hs.append(gen_history(rng, rng.choice([2, 4, 6, 9, 14]), gen_share=0.25 if quick else 0.4))
     chk.log('%d histories (%d corpus, %d exhaustive, %d random)' % (len(hs), ncorpus, len(ex), nrand))
